@@ -38,6 +38,8 @@ func main() {
 	qto := flag.Int("qtimeout", 60000, "per-query solver timeout (ms)")
 	solver := flag.String("solver", "z3 -in", "solver command")
 	nomerge := flag.Bool("nomerge", false, "disable predicated region merging")
+	anfcheck := flag.Bool("anfcheck", false, "also send every obligation discharged by the GF(2) normal form to the SMT solver and report disagreement")
+	noanf := flag.Bool("noanf", false, "do not try GF(2) polynomial normalisation before asking the SMT solver")
 	trace := flag.Bool("trace", false, "trace instructions")
 	initPkgs := flag.String("init", "", "comma-separated extra package paths whose init is run")
 	deadline := flag.Duration("deadline", 0, "wall-clock limit for exploration")
@@ -136,6 +138,8 @@ func main() {
 		MaxEnum:       *maxEnum,
 		Workers:       *workers,
 		NoMerge:       *nomerge,
+		NoANF:         *noanf,
+		ANFCheck:      *anfcheck,
 		InitPkgs:      ip,
 		Redirects:     redirects,
 		SkipFuncs:     skipSet(*skip),
